@@ -344,6 +344,9 @@ def x_aol_types_WriterCompositeKey_FromStrings : List String := ["if len(strings
 /-- x/aol/types.WriterCompositeKey.Strings -/
 def x_aol_types_WriterCompositeKey_Strings : List String := ["return _", "call _.String", "call _.String"]
 
+/-- x/aol/types.init -/
+def x_aol_types_init : List String := ["call RegisterCodec", "call amino.Seal"]
+
 /-- x/aol/types.validateCanonicalKey -/
 def x_aol_types_validateCanonicalKey : List String := ["if canonical != keyStr", "assign canonical := compkey.EncodeToString(key, GenesisKeySeparator)", "call compkey.EncodeToString", "return _", "call fmt.Errorf", "return nil"]
 
